@@ -48,6 +48,7 @@ func (c06) Cases(tier string, seed int64, kf *KnownFindings) []Case {
 	cs = append(cs, Case{Kind: "lit", S: "untyped-resent", Count: 4, Sub: -1})
 	cs = append(cs, Case{Kind: "lit", S: "untyped-resent-reverse", Count: 4, Sub: -1})
 	cs = append(cs, Case{Kind: "lit", S: "named-map-with-containers", Count: 4, Sub: -1})
+	cs = append(cs, Case{Kind: "lit", S: "two-names-one-type", Count: 4, Sub: -1})
 	if tier == "thorough" {
 		// all histories of length <= 3 over a 12-value alphabet: 12 + 144 + 1728
 		for a := 0; a < 12; a++ {
@@ -135,6 +136,9 @@ func (c06) Run(c Case, env *Env) Result {
 		var hist []interface{}
 		var featSet = map[string]bool{}
 		untyped := false
+		var preStream []byte // a stream written by a peer (reference encoder) instead of this library
+		var preOffs []int
+		var preTm map[string]reflect.Type
 		mode := j % 4
 		// complete maps for exactly the values of this history
 		tm, nm := map[string]reflect.Type{}, map[string]string{}
@@ -154,6 +158,29 @@ func (c06) Run(c Case, env *Env) Result {
 				in1, in2 := &zoo.Inner{A: 1, S: "one"}, &zoo.Inner{A: 2, S: "two"}
 				npm := zoo.NamedPtrMap{"k": in1, "j": in2}
 				hist = []interface{}{"first", npm, in1, npm, &zoo.WithInner{P: in2, N: 3}, []interface{}{in1, npm}}
+			case "two-names-one-type":
+				// a peer that knows two versions of a class under two names; the receiver reads both into one
+				// Go type: every instance has to be read with the field list of the definition it names
+				a1, b1, a2, b2 := &zoo.Inner{A: 1, S: "a1"}, &zoo.Inner{A: 2, S: "b1"}, &zoo.Inner{A: 3, S: "a2"}, &zoo.Inner{A: 4, S: "b2"}
+				hist = []interface{}{a1, b1, a1, a2, b2, []interface{}{a2, b1}, "tail"}
+				v1 := func(x *zoo.Inner) *hspec.Value {
+					return hspec.Object("v1.Inner", []string{"a", "s"}, hspec.Int(x.A), hspec.String(x.S))
+				}
+				v2 := func(x *zoo.Inner) *hspec.Value {
+					return hspec.Object("v2.Inner", []string{"s", "gone", "a"}, hspec.String(x.S), hspec.String("dropped"), hspec.Int(x.A))
+				}
+				wa1, wb1, wa2, wb2 := v1(a1), v2(b1), v1(a2), v2(b2)
+				if j%2 == 1 {
+					wa1, wb1, wa2, wb2 = v2(a1), v1(b1), v2(a2), v1(b2)
+				}
+				pe := hspec.NewEncoder(hspec.Canonical{}, hspec.EncOpts{})
+				for _, w := range []*hspec.Value{wa1, wb1, wa1, wa2, wb2, hspec.List("", wa2, wb1), hspec.String("tail")} {
+					pe.Value(w)
+					preOffs = append(preOffs, len(pe.Out))
+				}
+				preStream = pe.Out
+				preTm = map[string]reflect.Type{"v1.Inner": reflect.TypeOf(zoo.Inner{}), "v2.Inner": reflect.TypeOf(zoo.Inner{})}
+				featSet["peer-stream"], featSet["two-class-names-one-go-type"] = true, true
 			case "badutf8":
 				// strings that end in a cut-off lead octet, each followed by a value whose first octets
 				// could be taken for continuation octets (x80..xbf are the one-octet ints -16..47)
@@ -270,6 +297,9 @@ func (c06) Run(c Case, env *Env) Result {
 			for _, v := range hist {
 				mergeMaps(tm, nm, v)
 			}
+			for k, t := range preTm {
+				tm[k] = t
+			}
 			if untyped {
 				// classes only: lists travel untyped and take their type from the field they land in
 				for k, v := range nm {
@@ -313,6 +343,11 @@ func (c06) Run(c Case, env *Env) Result {
 		pi, _ := Guard(func() {
 			var enc *hessian.Encoder
 			var ser hessian.Serializer
+			if preStream != nil {
+				w.Write(preStream)
+				offs = append(offs, preOffs...)
+				return
+			}
 			if mode == 0 || mode == 2 {
 				enc = hessian.NewEncoder(w, copyNames(nm))
 			} else {
